@@ -8,11 +8,11 @@ EXACT = ("generated-input search (proptest-driven raw vectors, shrinkable, seede
 EX = "Trusted: the harness' reference implementations (refs.rs), the Q/Fp arithmetic (q.rs), and rustc monomorphising the same generic source for f32/f64 as for Q/Fp. "
 ALL = {
  "C01": dict(
-   text="Exploration. Every clause of C01 is a polynomial identity; it is evaluated exactly (no tolerance) on generated dense matrices over Q and over the prime field Fp (per-case miss probability <= degree/2^61, Schwartz-Zippel) for n=2,3,4 and all four by-value/by-reference operand forms, against a textbook triple-loop reference; an f64 sub-check repeats the products with a rounding-only tolerance on regimes an exact field cannot represent (near-identity, wide magnitudes, sparse, aliased operands). Not a proof: sampled, but an index/sign/term slip is a hard inequality on a generic input. Every ring operation is also taken through its other entry points (reference operands, +=, -=, *=, /=, %=, Sum/Product over values and references, scalar on the left in f64).",
+   text="Exploration. Every clause of C01 is a polynomial identity; it is evaluated exactly (no tolerance) on generated dense matrices over Q and over the prime field Fp (per-case miss probability <= degree/2^61, Schwartz-Zippel) for n=2,3,4 and all four by-value/by-reference operand forms, against a textbook triple-loop reference; an f64 sub-check repeats the products with a rounding-only tolerance on regimes an exact field cannot represent (near-identity, wide magnitudes, sparse, aliased operands). Not a proof: sampled, but an index/sign/term slip is a hard inequality on a generic input. Every ring operation is also taken through its other entry points (reference operands, +=, -=, *=, /=, %=, Sum/Product over values and references, scalar on the left in f64). transpose()/transpose_self() are checked bit for bit on tiny and nearly symmetric f64 matrices; is_one/set_one/set_zero and unsized-iterator folds are included.",
    note=EX+"Assumes no division by a zero scalar.",
    technique="property-based testing: exact-field differential oracle (Q, Fp) + algebraic laws", design="6/C01"),
  "C02": dict(
-   text="Exploration. determinant/invert/transpose/swap laws evaluated exactly over Q and Fp on generic matrices and on *constructed* singular (rank n-1 by column and by row combination), low-rank and tiny-determinant matrices; invert()==None is compared with the Leibniz determinant being exactly 0; swap/replace_col index pairs are enumerated completely per case; native f64/f32 matrices diag(2^a)*U with ordinary, subnormal, underflowed and huge determinants must invert exactly when determinant() != 0. Sampled search, not a proof; exact arithmetic means no tolerance can hide or invent a failure. Exactly singular float matrices (2x2, 3x3: one column an exact power-of-two multiple of another, generic inexact entries) must have determinant() == 0 and no inverse. Rotations / diagonal matrices perturbed by 1e-14..1e-4 (invert_near_special-f64) must be inverted to rounding accuracy.",
+   text="Exploration. determinant/invert/transpose/swap laws evaluated exactly over Q and Fp on generic matrices and on *constructed* singular (rank n-1 by column and by row combination), low-rank and tiny-determinant matrices; invert()==None is compared with the Leibniz determinant being exactly 0; swap/replace_col index pairs are enumerated completely per case; native f64/f32 matrices diag(2^a)*U with ordinary, subnormal, underflowed and huge determinants must invert exactly when determinant() != 0. Sampled search, not a proof; exact arithmetic means no tolerance can hide or invent a failure. Exactly singular float matrices (2x2, 3x3: one column an exact power-of-two multiple of another, generic inexact entries) must have determinant() == 0 and no inverse. Rotations / diagonal matrices perturbed by 1e-14..1e-4 (invert_near_special-f64) must be inverted to rounding accuracy. Ill-conditioned but exact integer matrices (illconditioned_native-*) must have determinant exactly +-1 and an exact inverse.",
    note=EX+"ulps-equality degenerates to equality in Q/Fp. Memory safety of the unchecked reads is only covered by the ASan fuzz build in the thorough tier.",
    technique="property-based testing: exact-field reference model (Leibniz determinant), constructed singular classes, exhaustive index enumeration", design="6/C02"),
  "C03": dict(
@@ -20,19 +20,19 @@ ALL = {
    note=EX+"Integer operands are constructed inside the no-overflow range; divisors non-zero.",
    technique="property-based testing: per-component reference + algebraic identities over exact fields and integers", design="6/C03"),
  "C04": dict(
-   text="Exploration. Hamilton product vs an independent 4x4 left-multiplication-matrix reference, ring laws, conjugate/norm/inverse laws and the rotation formula q*v for arbitrary and *exactly unit* (p^2/|p|^2) quaternions, all with == over Q and Fp (operands aliased now and then), plus an f64 sub-check of product and rotation against the reference on quaternions within rounding of +-1, tiny vector parts and wide magnitudes. Every operation is also taken through reference operands, +=, -=, *=, /=, %=, scalar on the left (f64), single/empty Sum and Product. Product/Sum over lists are compared bit for bit with the left folds on nearly-unit quaternions.",
+   text="Exploration. Hamilton product vs an independent 4x4 left-multiplication-matrix reference, ring laws, conjugate/norm/inverse laws and the rotation formula q*v for arbitrary and *exactly unit* (p^2/|p|^2) quaternions, all with == over Q and Fp (operands aliased now and then), plus an f64 sub-check of product and rotation against the reference on quaternions within rounding of +-1, tiny vector parts and wide magnitudes. Every operation is also taken through reference operands, +=, -=, *=, /=, %=, scalar on the left (f64), single/empty Sum and Product. Product/Sum over lists are compared bit for bit with the left folds on nearly-unit quaternions. |2^k q|^2 = 4^k |q|^2 bit for bit and q*invert(q) = 1 for |k| <= 500.",
    note=EX,
    technique="property-based testing: exact-field differential oracle + algebraic laws", design="6/C04"),
  "C05": dict(
-   text="Exploration. The four rotation representations are compared exactly over Q/Fp on exactly unit quaternions (action on a vector, element tables, orthonormality, det=+1, composition); matrix->quaternion is decided exactly in Q (all internal square roots are rational) and within 1e-12 in f64, with all four branches required to be reached, the trace=0 hand-over and near-identity rotations targeted. Composition is also written as Product over values and references (three non-commuting factors) for Basis3, Quaternion, Matrix3 and Matrix4, and through Into conversions. The rotation is applied through every entry point (transform_vector/transform_point, rotate_vector/rotate_point, reference products).",
+   text="Exploration. The four rotation representations are compared exactly over Q/Fp on exactly unit quaternions (action on a vector, element tables, orthonormality, det=+1, composition); matrix->quaternion is decided exactly in Q (all internal square roots are rational) and within 1e-12 in f64, with all four branches required to be reached, the trace=0 hand-over and near-identity rotations targeted. Composition is also written as Product over values and references (three non-commuting factors) for Basis3, Quaternion, Matrix3 and Matrix4, and through Into conversions. The rotation is applied through every entry point (transform_vector/transform_point, rotate_vector/rotate_point, reference products). Composition also through Transform::concat/concat_self of Matrix3 (2-D and 3-D impl) and Matrix4.",
    note=EX+"Branch classes are recomputed from the input with the documented conditions.",
    technique="property-based testing: exact round-trip + differential oracle with branch-coverage classes", design="6/C05"),
  "C06": dict(
-   text="Exploration. from_axis_angle / from_angle_x,y,z / 2-D from_angle for all six representations against Rodrigues' formula: exactly in Q using named angles with rational (sin,cos) and half-angle pairs and rational unit axes, and within 1e-12 in f64 with libm sin/cos for Rad and Deg inputs (angles in +-20 rad, tiny angles, angles next to multiples of a quarter turn); angle additivity, inverse and rotate_point laws. f64 angles include many-turn angles up to 1e15 rad, exact quarter-turn multiples and tiny angles for the 2-D and 3-D constructors.",
+   text="Exploration. from_axis_angle / from_angle_x,y,z / 2-D from_angle for all six representations against Rodrigues' formula: exactly in Q using named angles with rational (sin,cos) and half-angle pairs and rational unit axes, and within 1e-12 in f64 with libm sin/cos for Rad and Deg inputs (angles in +-20 rad, tiny angles, angles next to multiples of a quarter turn); angle additivity, inverse and rotate_point laws. f64 angles include many-turn angles up to 1e15 rad, exact quarter-turn multiples and tiny angles for the 2-D and 3-D constructors. The f64 tier applies the rotation through all ten application entry points.",
    note=EX+"Non-unit axes are outside the statement. Named-angle registry: Q::sin_cos looks the angle's name up.",
    technique="property-based testing: exact rational-trigonometry oracle (Rodrigues) + f64 libm differential", design="6/C06"),
  "C07": dict(
-   text="Exploration. Euler->rotation for Matrix3/Matrix4/Basis3/Quaternion against Rx*Ry*Rz exactly in Q (named angles) and within 1e-12 in f64 (Rad and Deg); quaternion->Euler on f64 unit quaternions with generators aimed at the gimbal cone and its boundary sin y = +-0.998(1+-delta), checking ranges, exact rebuild outside the cone, x=0/y=+-pi/2/0.13 bound inside. Exactly structured quaternions (pure rotations about one coordinate axis over two full turns, basis quaternions, one vanishing component) are a required class.",
+   text="Exploration. Euler->rotation for Matrix3/Matrix4/Basis3/Quaternion against Rx*Ry*Rz exactly in Q (named angles) and within 1e-12 in f64 (Rad and Deg); quaternion->Euler on f64 unit quaternions with generators aimed at the gimbal cone and its boundary sin y = +-0.998(1+-delta), checking ranges, exact rebuild outside the cone, x=0/y=+-pi/2/0.13 bound inside. Exactly structured quaternions (pure rotations about one coordinate axis over two full turns, basis quaternions, one vanishing component) are a required class. f64 Euler angles include many-turn angles up to 1e12 rad, exact quarter-turn multiples and tiny angles.",
    note=EX+"The 0.998/0.13 constants are f64-calibrated; a 1e-9 guard band accepts either obligation on the boundary.",
    technique="property-based testing: exact composition oracle + f64 round-trip with boundary-targeted generators", design="6/C07"),
  "C12": dict(
@@ -48,15 +48,15 @@ ALL = {
    note=EX+"Unit inputs for between_vectors; the 1e-7 / 1e-4 allowances of the statement are applied as stated, with a conditioning term 32 eps/theta* between the allowance and 1e-9.",
    technique="property-based testing: validity-predicate oracle with degenerate-class generators (f64) + exact rational geometry (Q)", design="6/C15"),
  "C11": dict(
-   text="Exploration. Exact: magnitude2/distance2/project_on identities over Q and Fp, and magnitude/normalize/normalize_to/distance on vectors of *rational length* (rational unit vector times a rational) so that every internal sqrt is exact, for Vector1-4, Quaternion and Point1-3. f64: the same clauses with 4-8 eps tolerances and the angle clauses (|u||v|cos(angle)=u.v within 1e-12, range, symmetry; 2-D sign pinned by rotating u) on generic, nearly (anti)parallel, exactly (anti)parallel and nearly equal pairs. A quarter of the pairs carry exact structure: the same components vanish in both vectors (either sign of zero) or both lie on coordinate axes.",
+   text="Exploration. Exact: magnitude2/distance2/project_on identities over Q and Fp, and magnitude/normalize/normalize_to/distance on vectors of *rational length* (rational unit vector times a rational) so that every internal sqrt is exact, for Vector1-4, Quaternion and Point1-3. f64: the same clauses with 4-8 eps tolerances and the angle clauses (|u||v|cos(angle)=u.v within 1e-12, range, symmetry; 2-D sign pinned by rotating u) on generic, nearly (anti)parallel, exactly (anti)parallel and nearly equal pairs. A quarter of the pairs carry exact structure: the same components vanish in both vectors (either sign of zero) or both lie on coordinate axes. project_on is checked in f64 with operands at independent scales 1e-100..1e100; a sixth of the pairs have |u| = 1 only nearly.",
    note=EX+"f64 components log-uniform in 1e-3..1e3 (no over/underflow of squares); non-zero lengths by construction.",
    technique="property-based testing: exact rational-length oracle + f64 validity predicates on conditioned pair classes", design="6/C11"),
  "C14": dict(
-   text="Exploration. lerp = a + (b-a)t decided exactly over Q and Fp for every VectorSpace implementation (Vector1-4, Quaternion, Matrix2-4). nlerp/slerp checked on f64 unit-quaternion pairs in the classes generic / nearly parallel / nearly opposite / on the 0.9995 hand-over (delta 1e-12..1e-2, both signs of the dot product) / orthogonal / equal / exactly opposite with t in {0,1} and U[0,1], against the statement's validity predicate: unit, in the plane of a and b', on the shorter arc, exact endpoints, slerp arc = t*Omega within 1e-9 (1e-5 above the hand-over). Structurally orthogonal pairs (disjoint supports, zeros of either sign) are a required class for which the statement's 'a.b >= 0' case is demanded exactly. lerp is also checked in f64 (amounts up to 1e17, equal and nearly equal operands) and on integer vectors over the whole range (outcome: value or overflow panic).",
+   text="Exploration. lerp = a + (b-a)t decided exactly over Q and Fp for every VectorSpace implementation (Vector1-4, Quaternion, Matrix2-4). nlerp/slerp checked on f64 unit-quaternion pairs in the classes generic / nearly parallel / nearly opposite / on the 0.9995 hand-over (delta 1e-12..1e-2, both signs of the dot product) / orthogonal / equal / exactly opposite with t in {0,1} and U[0,1], against the statement's validity predicate: unit, in the plane of a and b', on the shorter arc, exact endpoints, slerp arc = t*Omega within 1e-9 (1e-5 above the hand-over). Structurally orthogonal pairs (disjoint supports, zeros of either sign) are a required class for which the statement's 'a.b >= 0' case is demanded exactly. lerp is also checked in f64 (amounts up to 1e17, equal and nearly equal operands) and on integer vectors over the whole range (outcome: value or overflow panic). nlerp/slerp are also checked on Quaternion<f32> with tolerances of their own.",
    note=EX+"The arc is measured as 2 atan2(|a-b'|,|a+b'|); the frame used for the in-plane test is known to eps/Omega, which is added to the tolerance; either target accepted when |a.b| <= 1e-12.",
    technique="property-based testing: exact-field oracle (lerp) + validity predicate with threshold-targeted generators (nlerp/slerp)", design="6/C14"),
  "C08": dict(
-   text="Exploration. One generic law-checker (composition on points and vectors, concat_self, one(), displacement independence, inverse presence and undoing, inverse_transform_vector) is instantiated for all five Transform impls over Q and Fp with exactly unit rotations, zero/negative scales, singular and fully projective matrices; Decomposed-specific clauses (s*t, explicit formulas, Matrix4/Matrix3::from commuting with apply/compose/invert/one) exactly; the |scale|>1e-6 threshold clause on f64 with scales 0, 5e-324..1e-6, just above 1e-6, ordinary; matrix impls in f64 must invert whenever the determinant is non-zero (determinants down to 1e-150) and M(D^-1) = M(D)^-1. Affine matrices times a scalar (bottom row (0,..,0,k)) are a required class for Matrix4 and for Matrix3 as a 2-D transform (this class exposed the defect fixed in 5996e8e).",
+   text="Exploration. One generic law-checker (composition on points and vectors, concat_self, one(), displacement independence, inverse presence and undoing, inverse_transform_vector) is instantiated for all five Transform impls over Q and Fp with exactly unit rotations, zero/negative scales, singular and fully projective matrices; Decomposed-specific clauses (s*t, explicit formulas, Matrix4/Matrix3::from commuting with apply/compose/invert/one) exactly; the |scale|>1e-6 threshold clause on f64 with scales 0, 5e-324..1e-6, just above 1e-6, ordinary; matrix impls in f64 must invert whenever the determinant is non-zero (determinants down to 1e-150) and M(D^-1) = M(D)^-1. Affine matrices times a scalar (bottom row (0,..,0,k)) are a required class for Matrix4 and for Matrix3 as a 2-D transform (this class exposed the defect fixed in 5996e8e). One's provided methods (set_one, is_one) and one() as neutral element of every composition form are part of the laws.",
    note=EX+"Vector clauses for matrix impls are asserted on affine matrices only; for 0<|scale|<=1e-6 either None or a correct inverse is accepted; f64 tolerances are eps*(|p|+|disp|/|scale|).",
    technique="property-based testing: generic law checker over all Transform implementations, exact fields + f64 threshold classes", design="6/C08"),
  "C09": dict(
@@ -68,15 +68,15 @@ ALL = {
    note=EX+"Valid domain excludes l==r, b==t, n==f and height==0 (division by zero), and for perspective/planar planes closer than machine epsilon in absolute terms (the constructors' own 'too close' assertion).",
    technique="property-based testing: mapping-predicate oracle (exact Q + f64) and single-fault rejection enumeration", design="6/C10"),
  "C16": dict(
-   text="Exploration over a completely enumerated configuration space. Every view and conversion of Vector1-4, Point1-3, Matrix2-4 and Quaternion (arrays, tuples, references to both, flat column-major arrays, raw pointers, Index/IndexMut by usize and by every range, mint types incl. EulerAngles<_,IntraXYZ>, map/zip/from_value/extend/truncate/truncate_n/swap_elements, conv::array*) is exercised for every slot and every mutable view, with 12 element types (8 numeric, char, a Copy struct, &str, String where the impl has no numeric bound); out-of-range and inverted indices must panic; all 550 swizzle words are generated by the harness' own build script (counts asserted). Random tags per case guard against accidental agreement. Matrix swap_elements/swap_rows/swap_columns/replace_col/row/indexing must panic for an index out of range in any single position.",
+   text="Exploration over a completely enumerated configuration space. Every view and conversion of Vector1-4, Point1-3, Matrix2-4 and Quaternion (arrays, tuples, references to both, flat column-major arrays, raw pointers, Index/IndexMut by usize and by every range, mint types incl. EulerAngles<_,IntraXYZ>, map/zip/from_value/extend/truncate/truncate_n/swap_elements, conv::array*) is exercised for every slot and every mutable view, with 12 element types (8 numeric, char, a Copy struct, &str, String where the impl has no numeric bound); out-of-range and inverted indices must panic; all 550 swizzle words are generated by the harness' own build script (counts asserted). Random tags per case guard against accidental agreement. Matrix swap_elements/swap_rows/swap_columns/replace_col/row/indexing must panic for an index out of range in any single position. Out-of-range indices are also probed on the write path (Quaternion, matrices).",
    note=EX+"Parametricity: routing is generic in the element type, so one all-distinct assignment per configuration decides it. Pointer views are dereferenced in bounds only; UB that does not manifest is not detected here (ASan fuzz build in the thorough tier).",
    technique="property-based testing: exhaustive configuration enumeration with generated tag values against index-table reference", design="6/C16"),
  "C17": dict(
-   text="Exploration. For every operator impl of vectors, points, matrices, quaternions, angles and bases: by-value, &rhs, &lhs, both-reference and compound-assignment forms must be bit-identical on generated operands (floats from raw bit patterns incl. +-0, subnormals, infinities, NaN identified; integers in the no-overflow range) for all 12 primitive scalars where the impl exists; scalar-on-the-left against the primitive operator per component (12 scalars x 10 compound types, f32/f64 x Quaternion); Sum/Product over values and references against the explicit left fold from zero()/one(); random straight-line programs run by a by-value interpreter and a mixed-form interpreter must end in identical register files. Integer operands are additionally drawn over their whole range (int_overflow-*): the outcome - value or overflow/division panic of the build - of every vector/point operator, in-place form and scalar-on-the-left form must equal that of the primitive operator per component. Sum/Product over long lists (up to 600 items, lengths concentrated around 16..256) equal the left fold bit for bit (floats) and in outcome (integers).",
+   text="Exploration. For every operator impl of vectors, points, matrices, quaternions, angles and bases: by-value, &rhs, &lhs, both-reference and compound-assignment forms must be bit-identical on generated operands (floats from raw bit patterns incl. +-0, subnormals, infinities, NaN identified; integers in the no-overflow range) for all 12 primitive scalars where the impl exists; scalar-on-the-left against the primitive operator per component (12 scalars x 10 compound types, f32/f64 x Quaternion); Sum/Product over values and references against the explicit left fold from zero()/one(); random straight-line programs run by a by-value interpreter and a mixed-form interpreter must end in identical register files. Integer operands are additionally drawn over their whole range (int_overflow-*): the outcome - value or overflow/division panic of the build - of every vector/point operator, in-place form and scalar-on-the-left form must equal that of the primitive operator per component. Sum/Product over long lists (up to 600 items, lengths concentrated around 16..256) equal the left fold bit for bit (floats) and in outcome (integers). Folds are also fed from iterators without a known length (filter, take_while, from_fn) and from chained slices.",
    note=EX+"Product/Sum spellings are compared with the fold from one()/zero(), which is what the statement promises (it differs from a bare binary op in the sign of zero).",
    technique="property-based testing: differential testing between operator spellings + model-based straight-line programs", design="6/C17"),
  "C18": dict(
-   text="Exploration over all component positions. For 20 compound types x {f32,f64}: abs_diff_eq/relative_eq/ulps_eq must equal the conjunction of the scalar relation over corresponding components, probed at every position with a partner just inside and just outside the tolerance (absolute, relative, exactly max_ulps / max_ulps+1 steps), plus multi-component perturbations, reflexivity, symmetry and macro-vs-explicit default tolerances; is_finite with NaN/+-inf at every position; is_zero / is_identity / is_diagonal / is_symmetric / is_invertible / is_perpendicular with one element moved just inside/outside the type's default tolerance. The negated relations (abs_diff_ne, relative_ne, ulps_ne; methods and macros) and the macro forms with explicit tolerances are compared with the _eq results. Matrix predicates are also evaluated on tiny, huge and determinant-overflowing entries.",
+   text="Exploration over all component positions. For 20 compound types x {f32,f64}: abs_diff_eq/relative_eq/ulps_eq must equal the conjunction of the scalar relation over corresponding components, probed at every position with a partner just inside and just outside the tolerance (absolute, relative, exactly max_ulps / max_ulps+1 steps), plus multi-component perturbations, reflexivity, symmetry and macro-vs-explicit default tolerances; is_finite with NaN/+-inf at every position; is_zero / is_identity / is_diagonal / is_symmetric / is_invertible / is_perpendicular with one element moved just inside/outside the type's default tolerance. The negated relations (abs_diff_ne, relative_ne, ulps_ne; methods and macros) and the macro forms with explicit tolerances are compared with the _eq results. Matrix predicates are also evaluated on tiny, huge and determinant-overflowing entries. Matrix predicates and relations are also evaluated with one NaN/infinite component at every position.",
    note="Trusted: the scalar approx impls for f32/f64. The matrix types' own default epsilon (1e-6) is used where the statement says 'ulps-comparison of the matrix'. Basis2/3 values are built through their Deserialize impl.",
    technique="property-based testing: per-position boundary probes against scalar-relation conjunction oracle", design="6/C18"),
  "C19": dict(
@@ -84,7 +84,7 @@ ALL = {
    note="Trusted: num_traits' scalar NumCast. All NaNs are identified when comparing.",
    technique="property-based testing: differential oracle against per-component scalar NumCast over the full type-pair matrix", design="6/C19"),
  "C20": dict(
-   text="Exploration. Every Serialize/Deserialize type (24 shapes x f32/f64, plus integer vectors/points) is round-tripped through serde_json::Value and through JSON text (float_roundtrip) with components from raw finite bit patterns (-0.0, subnormals, MIN_POSITIVE, MAX over-represented); the serialized Value must equal the documented field structure built by the harness; results are compared bit for bit with per-component scalar round trips through the same carrier. Decomposed: all 6 field orders must deserialise to the same value; each single omission (both remaining orders) and an unknown field at each of 4 positions must be Err (never Ok, never a panic).",
+   text="Exploration. Every Serialize/Deserialize type (24 shapes x f32/f64, plus integer vectors/points) is round-tripped through serde_json::Value and through JSON text (float_roundtrip) with components from raw finite bit patterns (-0.0, subnormals, MIN_POSITIVE, MAX over-represented); the serialized Value must equal the documented field structure built by the harness; results are compared bit for bit with per-component scalar round trips through the same carrier. Decomposed: all 6 field orders must deserialise to the same value; each single omission (both remaining orders) and an unknown field at each of 4 positions must be Err (never Ok, never a panic). Serialized trees and texts are compared with the expected structure bit for bit (-0.0).",
    note="Trusted: serde / serde_json scalar impls. Finite values only. Field-order permutations are fed as text because serde_json's Value map is key-ordered.",
    technique="property-based testing: round-trip oracle over two carriers + structural reference + enumerated field-order/omission/unknown-field cases", design="6/C20"),
 }
